@@ -133,6 +133,8 @@ def run_task(source, contracts, loops, qualname, natives=None, timeout_ms=10000,
     ctx.natives = dict(natives or {})
     ctx.force_inline = set(force_inline)
     ctx.raised = []
+    if contract is not None and getattr(contract, "ground_rounds", None):
+        ctx.ground_rounds = contract.ground_rounds
     if contract is not None and isinstance(contract.raises, dict):
         ctx.allowed_raises = {k: True for k in contract.raises}
     ex = Exec(ctx)
@@ -209,7 +211,7 @@ def run_task(source, contracts, loops, qualname, natives=None, timeout_ms=10000,
             if contract is not None:
                 for gname, gty in contract.ghost.items():
                     env[gname] = make_symbolic(ex, st, gname, gty)[0][0]
-                ctx.ghost_env = {g: env[g] for g in contract.ghost}
+                ctx.ghost_env = dict(getattr(ctx, 'ghost_env', {}), **{g: env[g] for g in contract.ghost})
             if contract is not None and contract.setup is not None:
                 contract.setup(ex, st, env)
             if contract is not None:
